@@ -199,9 +199,11 @@ func genKHist(c *Ctx) {
 				case 1: // same call, fresh object
 					add(1+c.R.Intn(3), base)
 					c.Stats.Count("repeat_fresh_object")
-				case 2: // other parameters on the same object
-					add(0, drawCall(c.R, g, "quick"))
-					c.Stats.Count("other_call_same_object")
+				case 2: // other parameters on the same (reused) object, and the same call on a fresh object: must agree
+					oc := drawCall(c.R, g, "quick")
+					add(0, oc)
+					add(4+s, oc)
+					c.Stats.Count("other_call_same_object_and_fresh")
 				case 3: // another model in between
 					om := models[(mi+1+c.R.Intn(len(models)))%len(models)]
 					if og := modelGens[om]; og != nil {
